@@ -152,6 +152,17 @@ class _Base:
     def __bool__(self):
         return not self._falsy
 
+    # a collector with value equality: two distinct (e.g. still empty) ones compare equal - they are two objects all the same
+    _equal_all = False
+
+    def __eq__(self, other):
+        if self is other:
+            return True
+        return bool(self._equal_all and type(other) is type(self) and other._equal_all)
+
+    def __hash__(self):
+        return 0 if self._equal_all else object.__hash__(self)
+
 
 class T26(_Base):
     """2.6-style: no skip/xfail/uxsuccess, no details, no startTestRun."""
